@@ -308,11 +308,11 @@ func ParamScenarios() []History {
 	ops = append(ops,
 		Ev{Name: "Call", Signer: "c1", Svc: "s1", Provs: []string{"p1", "p2"}, Cap: 10, Timeout: 2, Rep: true, Freq: 2, Total: 3},
 		eb(1),
-		with(func(p *MParams) { p.Slash = 1001 }),
+		with(func(p *MParams) { p.Slash = 1500 }),
 		Ev{Name: "Call", Signer: "c2", Svc: "s1", Provs: []string{"p1", "p2"}, Cap: 10, Timeout: 1},
 		eb(1),
 		Ev{Name: "Respond", Signer: "p2", Rid: rid(2, 1, 2, 1), Kind: "bad"}, // slashed under the fraction in force, the old one
-		with(func(p *MParams) { p.Slash = -1 }),
+		with(func(p *MParams) { p.Slash = -500 }),
 		eb(1), // p1 times out on the second call: slashed under the old fraction
 		with(func(p *MParams) { p.Tax = 1000 }),
 		with(func(p *MParams) { p.MaxTimeout = 0 }),
